@@ -181,6 +181,16 @@ CHECKS["C15"] = dict(
     design_ref="DESIGN.md section 6, C15",
 )
 
+CHECKS["C05"] = dict(
+    category="other",
+    technique="table reading from MIR (GPOS lookup type match table, ValueFormat bit predicates), reader dispatch agreement, conditional layout trace of ValueRecord::read_dep (predicate order, read width, destination field), enum-dispatch exhaustiveness, provenance of the nested lookup position",
+    text=("Every numeric clause of C05 is a value property and is not decided. Decided are necessary structural conditions: GPOS lookup type "
+          "numbers 1-9 select the specification's lookup kinds; each kind is parsed by its own subtable reader; ValueFormat predicates test the "
+          "specification's bits; a ValueRecord is consumed in the specification's field order with each value landing in the Adjust field of the "
+          "same meaning; both dispatchers list every PosLookup kind; nested lookups are applied at the position found by the flag-aware iterator."),
+    design_ref="DESIGN.md section 11 (C05 was listed as not applicable in section 7; the table clauses were added later)",
+)
+
 NOT_APPLICABLE = {
     "C05": "every clause is a numeric relation between table contents and output values; the structural parts (termination, borrow and panic discipline, attachment index validation) are decided under C02; no GPOS-specific clause is visible in the shape of the code",
 }
